@@ -66,7 +66,7 @@ impl Property for C18 {
         ]
     }
     fn cases(&self, tier: Tier) -> u64 {
-        tier.pick(100_000, 2_000_000)
+        tier.pick(600_000, 5_000_000)
     }
     fn strategy(&self, tier: Tier) -> BoxedStrategy<Case> {
         let cfg = HistCfg {
